@@ -109,3 +109,47 @@ def numba_effects(nj):
             deps.discard(p)
         per[p] = {"mode": mode, "comps": comps, "deps": deps & set(params), "free": deps - set(params), "records": rs}
     return {"params": params, "writes": writes, "reads": reads, "per": per, "records": recs}
+
+
+# ---------------------------------------------------------------------------- whole-array elementwise kernels
+def elementwise_forms(fn):
+    """for statements `p[...] = <arithmetic of parameters>` return {p: PW} with every name a symbol
+    (arrays are combined elementwise, so the scalar identity is the cellwise identity)"""
+    from fractions import Fraction
+    from .poly import PW, sym, const, fn as pfn
+    from .values import Unsupported
+    node = fn.fn.node if hasattr(fn, "fn") and hasattr(fn.fn, "node") else (fn.node if hasattr(fn, "node") else fn)
+
+    def conv(e):
+        if isinstance(e, ast.Name):
+            return sym(e.id)
+        if isinstance(e, ast.Constant) and isinstance(e.value, (int, float)):
+            return const(Fraction(repr(e.value)) if isinstance(e.value, float) else e.value)
+        if isinstance(e, ast.BinOp):
+            a, b = conv(e.left), conv(e.right)
+            if isinstance(e.op, ast.Add):
+                return a + b
+            if isinstance(e.op, ast.Sub):
+                return a - b
+            if isinstance(e.op, ast.Mult):
+                return a * b
+            if isinstance(e.op, ast.Div):
+                return a / b
+            if isinstance(e.op, ast.Pow) and isinstance(e.right, ast.Constant) and isinstance(e.right.value, int):
+                return a ** e.right.value
+        if isinstance(e, ast.UnaryOp) and isinstance(e.op, ast.USub):
+            return -conv(e.operand)
+        if isinstance(e, ast.Call) and ast.unparse(e.func) in ("np.fabs", "np.abs", "abs") and len(e.args) == 1:
+            return pfn("abs", conv(e.args[0]))
+        raise Unsupported("elementwise numba expression %s" % ast.unparse(e))
+    out = {}
+    for st in node.body:
+        if isinstance(st, ast.Expr) and isinstance(st.value, ast.Constant):
+            continue
+        if isinstance(st, ast.Assign) and len(st.targets) == 1 and isinstance(st.targets[0], ast.Subscript):
+            t = st.targets[0]
+            if isinstance(t.value, ast.Name) and isinstance(t.slice, ast.Constant) and t.slice.value is Ellipsis:
+                out[t.value.id] = conv(st.value)
+                continue
+        raise Unsupported("numba kernel %s is not a sequence of whole-array assignments" % node.name)
+    return out
